@@ -125,7 +125,7 @@ func (wg *WaitGroup) Add(delta int) {
 	if wg.s.init("waitgroup") {
 		wg.n = 0
 	}
-	vsched.PointCommute("WaitGroup.Add", 0x221+uint64(int64(delta))<<16, wg.s.obj)
+	vsched.PointCommute("WaitGroup.Add", 0x221+uint64(uint32(int32(delta)))<<16, wg.s.obj)
 	wg.n += delta
 	if wg.n < 0 {
 		panic("sync: negative WaitGroup counter")
@@ -139,7 +139,7 @@ func (wg *WaitGroup) Done() {
 	if wg.s.init("waitgroup") {
 		wg.n = 0
 	}
-	vsched.PointCommute("WaitGroup.Done", 0x221+uint64(int64(-1))<<16, wg.s.obj)
+	vsched.PointCommute("WaitGroup.Done", 0x222, wg.s.obj)
 	wg.n--
 	if wg.n < 0 {
 		panic("sync: negative WaitGroup counter")
